@@ -6,7 +6,13 @@
 // LD_PRELOAD shim replays/ioshim.c, and every single write of that commit is made to fail in turn.
 // Bound: one history (commit A: 20 keys, commit B: 40 keys + 10 overwrites, page size 1024), every single write fault
 // of commit B (state, reopen, later transactions checked), and every single write fault of the FIRST commit on a fresh file
-// (the one that grows the file), followed by a retry on the same handle.  Finding nothing proves nothing.
+// (the one that grows the file), followed by a retry on the same handle.
+// Third oracle (C02, crash images): a history that makes the persisted free list span SEVERAL pages, then four further
+// commits; for each of them the file before, the traced writes and the file after give crash images: every prefix of the
+// write sequence (process kill), and for the writes not yet covered by a completed sync each one alone missing / alone
+// present (power loss), and the header write torn at every 8-byte boundary of its first 112 bytes.  Every image must
+// reopen, show exactly the state before or after the commit (after, once the final sync is in), pass DB::check() and take
+// one more commit.  Finding nothing proves nothing.
 #[cfg(test)]
 mod verif_cex_commit {
     use crate::{Data, OpenOptions, DB};
@@ -194,5 +200,121 @@ mod verif_cex_commit {
             drop(db);
             let _ = std::fs::remove_file(&p);
         }
+    }
+
+    fn del_keys(db: &DB, from: u32, to: u32) -> Result<(), crate::Error> {
+        let tx = db.tx(true)?;
+        { let b = tx.get_bucket("b")?; for i in from..to { b.delete(format!("key{:05}", i))?; } }
+        tx.commit()
+    }
+    // one crash image: `base` (the file before the commit, zero-extended to the new length) with the selected writes applied
+    fn image(base: &[u8], post: &[u8], evs: &[Ev], sel: &[usize], torn: Option<(usize, usize)>) -> Vec<u8> {
+        let mut img = base.to_vec();
+        for &i in sel {
+            if let Ev::W { off, len, .. } = evs[i] {
+                let (a, mut b) = (off as usize, (off + len) as usize);
+                if let Some((ti, keep)) = torn { if ti == i { b = a + keep; } }
+                img[a..b].copy_from_slice(&post[a..b]);
+            }
+        }
+        img
+    }
+    #[test]
+    fn cex_commit_crash_images() {
+        if std::env::var("IOSHIM_LOG").is_err() { println!("cex commit: shim not loaded, skipped"); return; }
+        set_ctl("-1");
+        let p = tmp("crash");
+        let db = OpenOptions::new().pagesize(PS).open(&p).unwrap();
+        put_keys(&db, 0, 300, 700, 1).unwrap();
+        del_keys(&db, 0, 250).unwrap();
+        put_keys(&db, 1000, 1005, 50, 2).unwrap();
+        let steps: Vec<(&str, Box<dyn Fn(&DB) -> Result<(), crate::Error>>)> = vec![
+            ("put 5 small keys", Box::new(|db: &DB| put_keys(db, 1005, 1010, 50, 3))),
+            ("overwrite 10 keys with 700-byte values", Box::new(|db: &DB| put_keys(db, 250, 260, 700, 4))),
+            ("delete 10 keys", Box::new(|db: &DB| del_keys(db, 260, 270))),
+            ("put 40 keys of 300 bytes", Box::new(|db: &DB| put_keys(db, 2000, 2040, 300, 5))),
+        ];
+        let hist = "history (page size 1024): put 300 keys of 700 bytes, commit; delete 250 of them, commit; put 5 keys, commit (the persisted free list now spans several pages)";
+        let mut done = String::new();
+        for (si, (name, step)) in steps.iter().enumerate() {
+            let pre = std::fs::read(&p).unwrap();
+            let before = contents(&db);
+            let mark = log_lines().len();
+            step(&db).unwrap();
+            let post = std::fs::read(&p).unwrap();
+            let after = contents(&db);
+            let evs = parse(&log_lines()[mark..]);
+            let mut base = pre.clone();
+            base.resize(post.len(), 0);
+            let writes: Vec<usize> = evs.iter().enumerate().filter(|(_, e)| matches!(e, Ev::W { ok: true, .. })).map(|(i, _)| i).collect();
+            // the reconstruction needs every byte to be written at most once per commit
+            let mut spans: Vec<(u64, u64)> = writes.iter().map(|i| if let Ev::W { off, len, .. } = evs[*i] { (off, off + len) } else { (0, 0) }).collect();
+            spans.sort();
+            if spans.windows(2).any(|w| w[0].1 > w[1].0) { println!("cex commit: overlapping writes in one commit, crash images not built for step {}", si); continue; }
+            let syncs: Vec<usize> = evs.iter().enumerate().filter(|(_, e)| **e == Ev::S { ok: true }).map(|(i, _)| i).collect();
+            let hdr = writes.iter().cloned().find(|i| is_hdr(&evs[*i]));
+            // (selected writes, torn header, must-be-after, description)
+            let mut cases: Vec<(Vec<usize>, Option<(usize, usize)>, bool, String)> = Vec::new();
+            for j in 0..=evs.len() {
+                // crash after event j-1: durable = writes before the last completed sync; the rest is volatile
+                let last_sync = syncs.iter().cloned().filter(|s| *s < j).last();
+                let issued: Vec<usize> = writes.iter().cloned().filter(|i| *i < j).collect();
+                let durable: Vec<usize> = issued.iter().cloned().filter(|i| last_sync.map_or(false, |s| *i < s)).collect();
+                let volatile: Vec<usize> = issued.iter().cloned().filter(|i| !durable.contains(i)).collect();
+                let final_sync_in = hdr.map_or(false, |h| last_sync.map_or(false, |s| s > h));
+                cases.push((issued.clone(), None, final_sync_in, format!("process killed after event {} of {} (all {} issued writes in the file)", j, evs.len(), issued.len())));
+                // power loss: only at the points where the volatile set is largest (just before each sync, and at the end)
+                let at_sync_or_end = j == evs.len() || matches!(evs[j], Ev::S { .. });
+                if at_sync_or_end && volatile.len() > 1 {
+                    for v in &volatile {
+                        let mut sel = durable.clone(); sel.extend(volatile.iter().cloned().filter(|x| x != v)); sel.sort();
+                        cases.push((sel, None, false, format!("power lost after event {}: every issued write reached the disk except the one at offset {:?}", j, evs[*v])));
+                        let mut sel = durable.clone(); sel.push(*v); sel.sort();
+                        cases.push((sel, None, false, format!("power lost after event {}: of the writes not yet synced only the one at offset {:?} reached the disk", j, evs[*v])));
+                    }
+                }
+            }
+            if let Some(h) = hdr {
+                let before_h: Vec<usize> = writes.iter().cloned().filter(|i| *i <= h).collect();
+                for keep in (0..112usize).step_by(8) {
+                    cases.push((before_h.clone(), Some((h, keep)), false, format!("header write torn: only its first {} bytes reached the disk", keep)));
+                }
+            }
+            for (sel, torn, must_after, what) in cases {
+                let img = image(&base, &post, &evs, &sel, torn);
+                let ip = tmp("crash-img");
+                std::fs::write(&ip, &img).unwrap();
+                let ctx = format!("{}{}; then `{}` is committed and the crash image is: {}", hist, done, name, what);
+                println!("TRYING {}", ctx);
+                let r = std::panic::catch_unwind(|| {
+                    let d2 = OpenOptions::new().pagesize(PS).open(&ip).map_err(|e| format!("reopening fails: {:?}", e))?;
+                    let c = contents(&d2);
+                    d2.check().map_err(|e| format!("the reopened database shows {} entries but check() fails: {:?}", c.len(), e))?;
+                    Ok::<_, String>((d2, c))
+                });
+                let verdict = match r {
+                    Err(_) => Err("reopening panics".to_string()),
+                    Ok(Err(e)) => Err(e),
+                    Ok(Ok((d2, c))) => {
+                        let hdr_whole = torn.is_none() && hdr.map_or(false, |h| sel.contains(&h));
+                        if must_after && c != after { Err(format!("the commit had returned durable (final sync completed) but the image shows {} entries, the committed state has {}", c.len(), after.len())) }
+                        else if !hdr_whole && torn.is_none() && c != before { Err(format!("the header write is not in the image but it shows {} entries; the state before the commit has {}", c.len(), before.len())) }
+                        else if c != before && c != after { Err(format!("the image shows {} entries: neither the state before ({}) nor after ({}) the commit", c.len(), before.len(), after.len())) }
+                        else {
+                            let later = std::panic::catch_unwind(std::panic::AssertUnwindSafe(|| put_keys(&d2, 9000, 9005, 60, 9).and_then(|_| d2.check())));
+                            match later { Ok(Ok(())) => Ok(()), other => Err(format!("the next commit on the reopened image gives {:?}", other.map(|r| r.map_err(|e| format!("{:?}", e))))) }
+                        }
+                    }
+                };
+                let _ = std::fs::remove_file(&ip);
+                if let Err(e) = verdict {
+                    println!("CEX TxInner::write_data (C02 crash image): {}: {}", ctx, e);
+                    panic!("c02-image");
+                }
+            }
+            done.push_str(&format!("; {} , commit", name));
+        }
+        drop(db);
+        let _ = std::fs::remove_file(&p);
     }
 }
